@@ -10,6 +10,7 @@ import GuppyVerif.Lemmas.C12CallIff
 import GuppyVerif.Lemmas.C12Fuel
 import GuppyVerif.Lemmas.C12GenCall
 import GuppyVerif.Lemmas.C12GenCallCompl
+import GuppyVerif.Lemmas.C12GenCallCheck
 /-! # C12 — type inference finds an instantiation exactly when one exists
 
 Property theorems about `Model/Unify.lean` (the model of `unify`, `_unify_var`, `_occurs`, `_unify_args`,
@@ -406,41 +407,77 @@ theorem generic_call_check_sound (E : Env) (sg : Sig) (fresh fresh₂ : List V) 
     | mismatch => simp [h1] at h
     | bounds => simp [h1] at h
 
-/-- **Generic call, exactly when** (synthesis position; arguments with synthesised closed types).
-    `synthesize_call` accepts ⇔ some instantiation `ρ` of the quantified parameters, respecting their copy/drop
-    bounds, makes every declared input type identical (up to flags) to the type of the corresponding argument;
-    and the instantiation it returns is that `ρ` (up to flags) with the return type instantiated by it.
-    Partial: proved for arguments of the form `Ex.val` (tuple *literals* are covered by `generic_call_synth_sound`
-    only — the converse for literals is left to the program-level tie), for well-sorted closed inputs, every
-    parameter occurring in some input (no return-only type variables), and where the ownership-flag rule cannot
-    fire (`NoLinear E`); no numeric coercions in the model. -/
-theorem generic_call_iff_partial (E : Env) (hE : NoLinear E) (sg : Sig) (fresh : List V) (as : List Tm)
+/-- **Generic call, exactly when** (synthesis position; arbitrary argument expressions: synthesised closed types
+    and arbitrarily nested tuple literals).  `synthesize_call` accepts ⇔ some instantiation `ρ` of the quantified
+    parameters, respecting their copy/drop bounds, makes every declared input type identical (up to flags) to the
+    (synthesised) type of the corresponding argument; and the instantiation it returns is that `ρ` (up to flags), the
+    returned type being the declared return type under it.  The threaded substitution stays most general after every
+    component (`Agree`), so later components remain unifiable whenever a global solution exists.
+    Remaining gaps (hence `_partial`): `NoLinear E` (needed only because `unify`'s flag rule is evaluated on types as
+    written, D17), every parameter occurs in some input (in synthesis position a return-only parameter is rejected
+    by the code; see `generic_call_check_iff_partial`), well-sorted closed inputs, no numeric coercions in the model. -/
+theorem generic_call_iff_partial (E : Env) (hE : NoLinear E) (sg : Sig) (fresh : List V) (es : List Ex)
     (hin : ∀ p ∈ sg.inputs, p.vars = [] ∧ p.wf = true) (hout : sg.out.vars = [])
-    (has : ∀ a ∈ as, a.wf = true ∧ a.vars = []) (hfresh : fresh.Nodup)
+    (hes : ∀ e ∈ es, e.Closed ∧ e.synth.wf = true) (hfresh : fresh.Nodup)
     (hocc : ∀ f ∈ fresh, ∃ p ∈ sg.inputs, f ∈ (instB (fresh.map Tm.var) p).vars) :
-    ((∃ ins ret, synthCall E sg fresh (as.map Ex.val) = .accept ins ret) ↔
+    ((∃ ins ret, synthCall E sg fresh es = .accept ins ret) ↔
       ∃ ρ : List Tm, ρ.length = fresh.length ∧ boundsOk E sg.bounds ρ = true ∧
-        All2 (fun a p => FlagEq (instB ρ p) a) as sg.inputs) ∧
+        All2 (fun e p => FlagEq (instB ρ p) e.synth) es sg.inputs) ∧
     (∀ ρ : List Tm, ρ.length = fresh.length → boundsOk E sg.bounds ρ = true →
-        All2 (fun a p => FlagEq (instB ρ p) a) as sg.inputs →
-        ∃ ins, synthCall E sg fresh (as.map Ex.val) = .accept ins (instB ins sg.out) ∧ All2 FlagEq ins ρ) := by
-  have hcl : ∀ e ∈ as.map Ex.val, e.Closed := by
-    intro e he; obtain ⟨a, ha, rfl⟩ := List.mem_map.mp he; exact (has a ha).2
-  have conv : ∀ {ρ : List Tm} {as ps : List Tm}, All2 (fun e p => FlagEq (instB ρ p) e.synth) (as.map Ex.val) ps →
-      All2 (fun a p => FlagEq (instB ρ p) a) as ps := by
-    intro ρ as
-    induction as with
-    | nil => intro ps h; cases h; exact .nil
-    | cons a as ih => intro ps h; cases h with | cons h1 h2 => exact .cons h1 (ih h2)
+        All2 (fun e p => FlagEq (instB ρ p) e.synth) es sg.inputs →
+        ∃ ins, synthCall E sg fresh es = .accept ins (instB ins sg.out) ∧ All2 FlagEq ins ρ) := by
   refine ⟨⟨?_, ?_⟩, ?_⟩
   · rintro ⟨ins, ret, h⟩
-    obtain ⟨_, ok⟩ := generic_call_synth_sound E sg fresh _ ins ret (fun a ha => (hin a ha).1) hout hcl h
-    exact ⟨ins, ok.len, ok.bounds, conv ok.fits⟩
+    obtain ⟨_, ok⟩ := generic_call_synth_sound E sg fresh es ins ret (fun a ha => (hin a ha).1) hout
+      (fun e he => (hes e he).1) h
+    exact ⟨ins, ok.len, ok.bounds, ok.fits⟩
   · rintro ⟨ρ, hl, hb, hf⟩
-    obtain ⟨ins, h, _⟩ := synthCall_complete E hE sg fresh as ρ hin hout has hfresh hl hocc hf hb
+    obtain ⟨ins, h, _⟩ := synthCall_complete_ex E hE sg fresh es ρ hin hout hes hfresh hl hocc hf hb
     exact ⟨ins, _, h⟩
   · intro ρ hl hb hf
-    exact synthCall_complete E hE sg fresh as ρ hin hout has hfresh hl hocc hf hb
+    exact synthCall_complete_ex E hE sg fresh es ρ hin hout hes hfresh hl hocc hf hb
+
+/-- **Generic call, exactly when** (checking position, closed expected type `ty`): `check_call` accepts ⇔ some
+    instantiation within the bounds makes every input fit its argument AND the declared return type fit `ty`; the
+    returned instantiation is that one.  Here a parameter only has to occur in some input *or in the return type*
+    (return-only type variables are solved from the expected type by the second path of `check_call`).
+    Gaps: `NoLinear E`, well-sorted closed inputs, no coercions. -/
+theorem generic_call_check_iff_partial (E : Env) (hE : NoLinear E) (sg : Sig) (fresh fresh₂ : List V) (es : List Ex)
+    (ty : Tm) (hin : ∀ p ∈ sg.inputs, p.vars = [] ∧ p.wf = true) (hout : sg.out.vars = []) (houtw : sg.out.wf = true)
+    (hes : ∀ e ∈ es, e.Closed ∧ e.synth.wf = true) (hty : ty.vars = []) (htyw : ty.wf = true)
+    (hf1 : fresh.Nodup) (hf2 : fresh₂.Nodup) (hlen : fresh₂.length = fresh.length)
+    (hocc : ∀ f ∈ fresh₂, (∃ p ∈ sg.inputs, f ∈ (instB (fresh₂.map Tm.var) p).vars) ∨
+        f ∈ (instB (fresh₂.map Tm.var) sg.out).vars) :
+    ((∃ ins ret, checkCall E sg fresh fresh₂ es ty = .accept ins ret) ↔
+      ∃ ρ : List Tm, ρ.length = fresh.length ∧ boundsOk E sg.bounds ρ = true ∧
+        All2 (fun e p => FlagEq (instB ρ p) e.synth) es sg.inputs ∧ FlagEq ty (instB ρ sg.out)) ∧
+    (∀ ρ : List Tm, ρ.length = fresh.length → boundsOk E sg.bounds ρ = true →
+        All2 (fun e p => FlagEq (instB ρ p) e.synth) es sg.inputs → FlagEq ty (instB ρ sg.out) →
+        ∃ ins, checkCall E sg fresh fresh₂ es ty = .accept ins (instB ins sg.out) ∧ All2 FlagEq ins ρ) := by
+  have compl : ∀ ρ : List Tm, ρ.length = fresh.length → boundsOk E sg.bounds ρ = true →
+      All2 (fun e p => FlagEq (instB ρ p) e.synth) es sg.inputs → FlagEq ty (instB ρ sg.out) →
+      ∃ ins, checkCall E sg fresh fresh₂ es ty = .accept ins (instB ins sg.out) ∧ All2 FlagEq ins ρ :=
+    fun ρ hl hb hf hr => checkCall_complete E hE sg fresh fresh₂ es ty ρ hin hout houtw hes hty htyw hf1 hf2 hl
+      (by rw [hl, hlen]) hocc hf hr hb
+  refine ⟨⟨?_, ?_⟩, compl⟩
+  · rintro ⟨ins, ret, h⟩
+    obtain ⟨_, h2, _, h4, h5, h6, h7⟩ := generic_call_check_sound E sg fresh fresh₂ es ty ins ret hlen
+      (fun a ha => (hin a ha).1) hout (fun e he => (hes e he).1) hty h
+    exact ⟨ins, h2, h4, h5, by rw [← h6]; exact h7⟩
+  · rintro ⟨ρ, hl, hb, hf, hr⟩
+    obtain ⟨ins, h, _⟩ := compl ρ hl hb hf hr
+    exact ⟨ins, _, h⟩
+
+/-- non-vacuity of `generic_call_check_iff_partial`: `mk : forall T. (int) -> T` against expected `bool` (return-only
+    type variable, solved from the expected type); nested tuple literal for `generic_call_iff_partial`:
+    `f : forall T. ((T, (T, int))) -> T` on `((x: bool, (y: bool, 1)))` -/
+example : checkCall {} ⟨[.atom (.num 2)], .atom (.bvar 0), [(true, true)]⟩ [2000] [3000] [.val (.atom (.num 2))]
+    (.node (.opaque 0) []) = .accept [.node (.opaque 0) []] (.node (.opaque 0) []) := by rfl
+
+example : synthCall {} ⟨[.node .tuple [.targ (.atom (.bvar 0)), .targ (.node .tuple [.targ (.atom (.bvar 0)), .targ (.atom (.num 2))])]],
+      .atom (.bvar 0), [(true, true)]⟩ [2000]
+    [.tup [.val (.node (.opaque 0) []), .tup [.val (.node (.opaque 0) []), .val (.atom (.num 2))]]]
+    = .accept [.node (.opaque 0) []] (.node (.opaque 0) []) := by rfl
 
 /-- non-vacuity of `generic_call_iff_partial`: `pair : forall T U. (T, Option[U], T) -> U` on `(int, Option[bool], int)` -/
 example : NoLinear {} ∧ [2000, 2002].Nodup ∧
